@@ -76,7 +76,12 @@ impl Exec {
         match r {
             Ok(fields) => {
                 for (k, v) in fields {
-                    ev.insert(k, v);
+                    // TLC's Json module has no null: an absent result is an absent field
+                    if v.is_null() {
+                        ev.insert(format!("no_{}", k), json!(true));
+                    } else {
+                        ev.insert(k, v);
+                    }
                 }
             }
             Err(e) => {
@@ -93,6 +98,19 @@ impl Exec {
                     let o = catch_unwind(AssertUnwindSafe(|| inst.obs())).unwrap_or(Value::Null);
                     if !o.is_null() {
                         ev.insert(if key == "g" { "obs".into() } else { "obs_to".into() }, o);
+                    }
+                }
+            }
+        }
+        // == events: the observations of both operands
+        if name == "eq" {
+            for key in ["a", "b"] {
+                if let Some(g) = op.get(key).and_then(|v| v.as_u64()) {
+                    if let Some(inst) = self.gens.get(&g) {
+                        let o = catch_unwind(AssertUnwindSafe(|| inst.obs())).unwrap_or(Value::Null);
+                        if !o.is_null() {
+                            ev.insert(format!("obs_{}", key), o);
+                        }
                     }
                 }
             }
